@@ -737,3 +737,304 @@ def make_energy_grad_contracts(cls):
 
 for _c in KNOT_FIELDS:
     make_energy_grad_contracts(_c)
+
+
+# ================================================================================================ cubic: gradient propagation (C05)
+from speclib import moment_coeffs
+
+
+class MomentJac(object):
+    """Jacobian of the four coefficients of a cubic piece with respect to (P0, P1, M0, M1, h), and of its end slopes"""
+    _inst = None
+
+    def __new__(cls):
+        if cls._inst is not None:
+            return cls._inst
+        o = object.__new__(cls)
+        cls._inst = o
+        v = lambda n: E.var('MS_' + n, REAL)
+        o.P0, o.P1, o.M0, o.M1, o.H, o.IV = v('P0'), v('P1'), v('M0'), v('M1'), v('H'), v('IV')
+        o.c = moment_coeffs(o.H, o.IV, o.P0, o.P1, o.M0, o.M1)
+        o.slope0 = o.c[1]                                                   # p'(0)
+        o.slope1 = o.c[1] + 2 * o.c[2] * o.H + 3 * o.c[3] * o.H * o.H       # p'(h)
+        hseed = {'MS_H': ONE, 'MS_IV': -(o.IV * o.IV)}
+        o.seeds = {'P0': {'MS_P0': ONE}, 'P1': {'MS_P1': ONE}, 'M0': {'MS_M0': ONE}, 'M1': {'MS_M1': ONE}, 'H': hseed}
+        return o
+
+    def d(self, e, var):
+        return ad.d_expr(e, self.seeds[var])
+
+    def bind(self, e, S, P, M, i, d):
+        i = E.const(i)
+        return subst(e, {'MS_P0': P.at(i, d), 'MS_P1': P.at(i + 1, d), 'MS_M0': M.at(i, d), 'MS_M1': M.at(i + 1, d),
+                         'MS_H': tp_field(S, i, 'h'), 'MS_IV': tp_field(S, i, 'h_inv')})
+
+
+class CubicAdjoint(object):
+    def __init__(self, S, gC):
+        self.S, self.gC = S, gC
+        self.P, self.M = S.v('spatial_points_'), S.v('internal_derivatives_')
+        self.J = MomentJac()
+        self.D = S.cfg['DIM']
+        self._c = {}
+
+    def g(self, i, m, d):
+        return self.gC.at(E.const(i) * 4 + m, d)
+
+    def pull(self, var, i, d):
+        key = (var, E.const(i).key(), d)
+        if key not in self._c:
+            self._c[key] = esum([self.g(i, m, d) * self.J.bind(self.J.d(self.J.c[m], var), self.S, self.P, self.M, i, d) for m in range(4)])
+        return self._c[key]
+
+    def slope(self, which, var, i, d):
+        """d/dvar of p_i'(0) (which = 0) or p_i'(h_i) (which = 1)"""
+        key = ('s', which, var, E.const(i).key(), d)
+        if key not in self._c:
+            e = self.J.slope0 if which == 0 else self.J.slope1
+            self._c[key] = self.J.bind(self.J.d(e, var), self.S, self.P, self.M, i, d)
+        return self._c[key]
+
+
+@register
+class CubicSolveWithCachedLU(Contract):
+    """X := A^-1 X for the clamped second-derivative system, from the cached factors (c', 1/pivot) of the forward solve"""
+    key = 'CubicSplineND.solveWithCachedLU'
+
+    def spec(self, S):
+        n = S.num_segments_
+        X = S.v('X')
+        R = S.old.get('X')
+        cp, inv = S.v('cached_c_prime_'), S.v('cached_inv_denoms_')
+        DS = dims(S)
+        S.requires((n >= 1) & (n <= NMAX) & X.R.eq(n + 1) & cp.R.eq(n) & inv.R.eq(n + 1), 'sizes')
+        for p in h_positive(S):
+            S.requires(p, 'positive_durations')
+        S.requires(cubic_factor_first(S), 'cached_factor_first')
+        S.requires(S.forall(1, n, lambda k: cubic_factor_mid(S, k)), 'cached_factors')
+        S.requires(cubic_factor_last(S, n), 'cached_factor_last')
+        S.terms(0, 1, n - 1, n, S.sk(0) - 1, S.sk(0) + 1)
+        S.assigns(X)
+        S.ensures(X.R.eq(n + 1), 'rows')
+        for d in DS:
+            first, mid, last = cubic_rows(S, X, R, n, d)
+            S.ensures(first, 'first_row_%d' % d)
+            S.ensures(mid, 'interior_rows_%d' % d)
+            S.ensures(last, 'last_row_%d' % d)
+        Xp = dict((d, S.spec_array('Xp%d' % d)) for d in DS)
+        Xpv = lambda k, d: Xp[d][0](k)
+        Xcur = lambda k, d: X.at(k, d)
+        h = lambda j: cubic_h(S, j)
+        fw0 = lambda Mx, d: Mx(0, d).eq(R.at(0, d) * inv.at(0, 0))
+        fw = lambda Mx, k, d: Mx(k, d).eq((R.at(k, d) - h(k - 1) * Mx(k - 1, d)) * inv.at(k, 0))
+        S.loop(0, inv=lambda L: [
+            ('range', (L.i >= 1) & (L.i <= n + 1) & L.n.eq(n + 1)), ('rows', X.R.eq(n + 1)),
+            ('eliminated0', conj([fw0(Xcur, d) for d in DS])),
+            ('eliminated', S.forall(1, L.i, lambda k: [fw(Xcur, k, d) for d in DS])),
+            ('untouched', S.forall(L.i, n + 1, lambda k: [X.at(k, d).eq(R.at(k, d)) for d in DS])),
+        ], variant=lambda L: n + 1 - L.i, terms=lambda L: [L.i - 1, L.i, L.i + 1])
+
+        def snapshot(G):
+            for d in DS:
+                G.copy_array(Xp[d][1], X.col(d))
+        S.ghost('loop1.before', snapshot)
+        S.loop(1, inv=lambda L: [
+            ('range', (L.i >= -1) & (L.i <= n - 1) & L.n.eq(n + 1)), ('rows', X.R.eq(n + 1)),
+            ('forward0', conj([fw0(Xpv, d) for d in DS])),
+            ('forward', S.forall(1, n + 1, lambda k: [fw(Xpv, k, d) for d in DS])),
+            ('solved_last', conj([X.at(n, d).eq(Xpv(n, d)) for d in DS])),
+            ('solved', S.forall(L.i + 1, n, lambda k: [X.at(k, d).eq(Xpv(k, d) - cp.at(k, 0) * X.at(k + 1, d)) for d in DS])),
+            ('pending', S.forall(0, L.i + 1, lambda k: [X.at(k, d).eq(Xpv(k, d)) for d in DS])),
+        ], variant=lambda L: L.i + 1, terms=lambda L: [L.i, L.i + 1, L.i + 2])
+
+
+@register
+class CubicPropagateGradInternal(Contract):
+    """adjoint-state equations for the cubic spline: unknowns are the knot second derivatives M_0..M_n, rows are the slope
+    conditions  R_0 = p_0'(0) - v_0,  R_k = p_k'(0) - p_(k-1)'(h_(k-1)),  R_n = v_n - p_(n-1)'(h_(n-1));  multipliers mu = 6 lambda"""
+    key = 'CubicSplineND.propagateGradInternal'
+
+    def spec(self, S):
+        D = S.cfg['DIM']
+        DS = dims(S)
+        n = S.num_segments_
+        gC, gT = S.v('partialGradByCoeffs'), S.v('partialGradByTimes')
+        GP, GT, SG, EG = S.v('innerPointsGrad'), S.v('gradByTimes'), S.v('startGrads'), S.v('endGrads')
+        LAM = S.v('ws_lambda_')
+        P, M = S.v('spatial_points_'), S.v('internal_derivatives_')
+        cp, inv = S.v('cached_c_prime_'), S.v('cached_inv_denoms_')
+        A = CubicAdjoint(S, gC)
+        cls = 'CubicSplineND'
+        S.requires(sizes_ok(S, cls), 'sizes')
+        for p in all_tp_ok(S, cls):
+            S.requires(p, 'time_powers')
+        for p in pd_ok(S):
+            S.requires(p, 'point_diffs')
+        S.requires(M.R.eq(n + 1) & gC.R.eq(4 * n) & gT.R.eq(n) & cp.R.eq(n) & inv.R.eq(n + 1), 'shapes')
+        S.requires(cubic_factor_first(S), 'cached_factor_first')
+        S.requires(S.forall(1, n, lambda k: cubic_factor_mid(S, k)), 'cached_factors')
+        S.requires(cubic_factor_last(S, n), 'cached_factor_last')
+        S.terms(0, 1, n, n - 1, S.sk(0) - 1, S.sk(0) + 1)
+        S.assigns(GP, GT, SG, EG, LAM)
+        mu = lambda k, d: 6 * LAM.at(k, d)
+        gM = lambda m, d: ite(E.const(m) < n, A.pull('M0', m, d), 0) + ite(E.const(m) >= 1, A.pull('M1', E.const(m) - 1, d), 0)
+        # names for the right-hand sides of the adjoint system
+        GMA = {}
+        for d in DS:
+            acc, full = S.spec_array('GM_%d' % d)
+            fact = S.forall(0, n + 1, lambda m, d=d, acc=acc: [acc(m).eq(gM(m, d))])
+            S.definitions.append((full, [fact]))
+            (S.ensures if S.mode == 'call' else S.requires)(fact, 'def_GM_%d' % d)
+            GMA[d] = acc
+        h = lambda j: cubic_h(S, j)
+
+        def e1(m, d, rhs):
+            # sum_k mu_k dR_k/dM_m + gM_m == 0, rows R_k as above (dR/dM by differentiation of the moment-form slopes)
+            m = E.const(m)
+            t_own_right = ite(m < n, mu(m, d) * A.slope(0, 'M0', m, d), 0)                       # R_m = p_m'(0) - ...
+            t_own_left = ite(m >= 1, -mu(m, d) * A.slope(1, 'M1', m - 1, d), 0)                  # R_m = ... - p_(m-1)'(h)
+            t_prev = ite(m >= 1, mu(m - 1, d) * A.slope(0, 'M1', m - 1, d), 0)                   # R_(m-1) = p_(m-1)'(0) - ..., depends on M_m
+            t_next = ite(m < n, -mu(m + 1, d) * A.slope(1, 'M0', m, d), 0)                       # R_(m+1) = ... - p_m'(h), depends on M_m
+            return (t_own_right + t_own_left + t_prev + t_next + rhs).eq(0)
+        S.ensures(GT.R.eq(n) & GP.R.eq(ite(n > 1, n - 1, 0)) & LAM.R.eq(n + 1), 'shapes')
+        for d in DS:
+            S.ensures(S.forall(0, n + 1, lambda m, d=d: [e1(m, d, gM(m, d))], inst=[S.sk(0), S.sk(0) - 1, S.sk(0) + 1]), 'multipliers_solve_the_transposed_slope_system_%d' % d)
+        PBHsum = lambda k: esum([A.pull('H', k, d) for d in range(D)])
+        HT = lambda k, d: mu(k, d) * A.slope(0, 'H', k, d) - mu(E.const(k) + 1, d) * A.slope(1, 'H', k, d)
+        S.ensures(S.forall(0, n, lambda k: [GT.at(k, 0).eq(gT.at(k, 0) + PBHsum(k) + esum([HT(k, d) for d in range(D)]))]), 'duration_gradient_is_adjoint_state_combination')
+        PQ0 = lambda j, d: mu(j, d) * A.slope(0, 'P0', j, d) - mu(E.const(j) + 1, d) * A.slope(1, 'P0', j, d)        # segment j, its left point
+        PQ1 = lambda j, d: mu(j, d) * A.slope(0, 'P1', j, d) - mu(E.const(j) + 1, d) * A.slope(1, 'P1', j, d)        # segment j, its right point
+        for d in DS:
+            S.ensures(S.forall(1, n, lambda j, d=d: [GP.at(j - 1, d).eq(A.pull('P0', j, d) + A.pull('P1', j - 1, d) + PQ0(j, d) + PQ1(j - 1, d))],
+                               inst=[S.sk(0), S.sk(0) - 1, S.sk(0) + 1]), 'inner_point_gradient_is_adjoint_state_combination_%d' % d)
+            S.ensures(SG.fields['p'].at(d, 0).eq(A.pull('P0', 0, d) + PQ0(0, d)) & EG.fields['p'].at(d, 0).eq(A.pull('P1', n - 1, d) + PQ1(n - 1, d)), 'end_point_gradients_%d' % d)
+            S.ensures(SG.fields['v'].at(d, 0).eq(-mu(0, d)) & EG.fields['v'].at(d, 0).eq(mu(n, d)), 'boundary_velocity_gradients_%d' % d)
+        if S.mode != 'verify':
+            return
+        # ============================================================ phase A
+        NM = dict((nm, S.fresh_real('ca_in_' + nm)) for nm in ['t', 'sp', 'ep'] + ['l0_%d' % d for d in DS] + ['l1_%d' % d for d in DS] + ['pm_%d' % d for d in DS] + ['pn_%d' % d for d in DS])
+
+        def loop0_inv(L):
+            i = L.i
+            out = [('range', (i >= 0) & (i <= n) & L.n.eq(n)), ('shapes', LAM.R.eq(n + 1) & GT.R.eq(n) & GP.R.eq(ite(n > 1, n - 1, 0)))]
+            out.append(('times_done', S.forall(0, i, lambda k: [GT.at(k, 0).eq(gT.at(k, 0) + PBHsum(k))])))
+            out.append(('times_untouched', S.forall(i, n, lambda k: [GT.at(k, 0).eq(gT.at(k, 0))])))
+            for d in DS:
+                out.append(('lam_first_%d' % d, implies(i > 0, LAM.at(0, d).eq(A.pull('M0', 0, d)))))
+                out.append(('lam_done_%d' % d, S.forall(1, i, lambda r, d=d: [LAM.at(r, d).eq(A.pull('M0', r, d) + A.pull('M1', r - 1, d))])))
+                out.append(('lam_half_%d' % d, implies(i > 0, LAM.at(i, d).eq(A.pull('M1', i - 1, d)))))
+                out.append(('lam_zero_%d' % d, implies(i.eq(0), LAM.at(0, d).eq(0))))
+                out.append(('lam_untouched_%d' % d, S.forall(i + 1, n + 1, lambda r, d=d: [LAM.at(r, d).eq(0)])))
+                out.append(('start_p_%d' % d, SG.fields['p'].at(d, 0).eq(ite(i > 0, A.pull('P0', 0, d), 0)) & SG.fields['v'].at(d, 0).eq(0) & EG.fields['v'].at(d, 0).eq(0)))
+                out.append(('end_p_%d' % d, EG.fields['p'].at(d, 0).eq(ite(i.eq(n), A.pull('P1', n - 1, d), 0))))
+                out.append(('inner_done_%d' % d, S.forall(1, i, lambda r, d=d: [GP.at(r - 1, d).eq(A.pull('P0', r, d) + A.pull('P1', r - 1, d))])))
+                out.append(('inner_half_%d' % d, implies((i > 0) & (i < n), GP.at(i - 1, d).eq(A.pull('P1', i - 1, d)))))
+                out.append(('inner_untouched_%d' % d, S.forall(i + 1, n, lambda r, d=d: [GP.at(r - 1, d).eq(0)])))
+            return out
+
+        def loop0_names(L):
+            i = L.i
+            out = [(NM['t'], GT.at(i, 0))]
+            for d in DS:
+                out += [(NM['l0_%d' % d], LAM.at(i, d)), (NM['l1_%d' % d], LAM.at(i + 1, d)),
+                        (NM['pm_%d' % d], ite(i.eq(0), SG.fields['p'].at(d, 0), GP.at(i - 1, d))), (NM['pn_%d' % d], ite((i + 1).eq(n), EG.fields['p'].at(d, 0), GP.at(i, d)))]
+            return out
+
+        def loop0_pre(L):
+            i = L.i
+            return [('tp', conj(tp_ok(S, i, cls))), ('pd', conj([S.v('point_diffs_').at(i, d).eq(P.at(i + 1, d) - P.at(i, d)) for d in range(D)])), ('i', (i >= 0) & (i < n) & L.n.eq(n))]
+
+        def loop0_post(L):
+            i = L.i
+            out = [('t', GT.at(i, 0).eq(NM['t'] + PBHsum(i)))]
+            for d in DS:
+                out.append(('l0_%d' % d, LAM.at(i, d).eq(NM['l0_%d' % d] + A.pull('M0', i, d))))
+                out.append(('l1_%d' % d, LAM.at(i + 1, d).eq(NM['l1_%d' % d] + A.pull('M1', i, d))))
+                out.append(('p0_%d' % d, ite(i.eq(0), SG.fields['p'].at(d, 0), GP.at(i - 1, d)).eq(NM['pm_%d' % d] + A.pull('P0', i, d))))
+                out.append(('p1_%d' % d, ite((i + 1).eq(n), EG.fields['p'].at(d, 0), GP.at(i, d)).eq(NM['pn_%d' % d] + A.pull('P1', i, d))))
+            return out
+        CASES = [('first_last', lambda L: L.i.eq(0) & (L.i + 1).eq(n)), ('first', lambda L: L.i.eq(0) & (L.i + 1 < n)),
+                 ('last', lambda L: (L.i > 0) & (L.i + 1).eq(n)), ('middle', lambda L: (L.i > 0) & (L.i + 1 < n))]
+        S.loop(0, inv=loop0_inv, variant=lambda L: n - L.i, terms=lambda L: [L.i, L.i - 1, L.i + 1],
+               local=dict(names=loop0_names, pre=loop0_pre, post=loop0_post, cases=CASES))
+        # ============================================================ the multipliers: E1 from the rows of the cached-LU solve
+        def lam_named(G):
+            r = S.sk(0)
+            inr = (r >= 0) & (r <= n)
+            for d in DS:
+                G.abstract_lemma('lambda_is_rhs_%d' % d, [n >= 1, implies((r >= 1) & (r < n), LAM.at(r, d).eq(A.pull('M0', r, d) + A.pull('M1', r - 1, d))),
+                                                           implies(r.eq(0), LAM.at(r, d).eq(A.pull('M0', r, d))), implies(r.eq(n), LAM.at(r, d).eq(A.pull('M1', r - 1, d))),
+                                                           implies(inr, GMA[d](r).eq(gM(r, d)))],
+                                 [implies(inr, LAM.at(r, d).eq(GMA[d](r)))])
+        S.ghost('loop0.after', lam_named)
+        LAM0 = dict((d, S.spec_array('LAM0_%d' % d)) for d in DS)
+
+        def before_solve(G):
+            for d in DS:
+                G.copy_array(LAM0[d][1], LAM.col(d))
+        S.ghost('call.solveWithCachedLU.before', before_solve)
+
+        def after_solve(G):
+            m = S.sk(0)
+            inr = (m >= 0) & (m <= n)
+            for d in DS:
+                rows = []
+                rows.append(n >= 1)
+                rows.append(implies(m.eq(0), (2 * h(m) * LAM.at(m, d) + h(m) * LAM.at(m + 1, d)).eq(GMA[d](m))))
+                rows.append(implies((m >= 1) & (m < n), (h(m - 1) * LAM.at(m - 1, d) + 2 * (h(m - 1) + h(m)) * LAM.at(m, d) + h(m) * LAM.at(m + 1, d)).eq(GMA[d](m))))
+                rows.append(implies(m.eq(n), (h(m - 1) * LAM.at(m - 1, d) + 2 * h(m - 1) * LAM.at(m, d)).eq(GMA[d](m))))
+                hyps = rows + [implies(inr & (m < n), x) for x in tp_ok(S, m, cls)] + [implies(inr & (m >= 1), x) for x in tp_ok(S, m - 1, cls)]
+                G.abstract_lemma('adjoint_system_%d' % d, hyps, [implies(inr, e1(m, d, GMA[d](m)))])
+        S.ghost('call.solveWithCachedLU.after', after_solve)
+        # ============================================================ phase B
+        NB = dict((nm, S.fresh_real('cb_in_' + nm)) for nm in ['t'] + ['pm_%d' % d for d in DS] + ['pn_%d' % d for d in DS])
+        mkA = lambda nm: S.spec_array(nm)[0]
+        HTA, PHA = mkA('HTA'), mkA('PHA')
+        Q0A = dict((d, mkA('Q0A_%d' % d)) for d in DS)
+        Q1A = dict((d, mkA('Q1A_%d' % d)) for d in DS)
+        P0A = dict((d, mkA('P0A_%d' % d)) for d in DS)
+        P1A = dict((d, mkA('P1A_%d' % d)) for d in DS)
+
+        def naming():
+            out = [('name_ht', S.forall(0, n, lambda k: [HTA(k).eq(esum([HT(k, d) for d in range(D)])), PHA(k).eq(PBHsum(k))]))]
+            for d in DS:
+                out.append(('name_q_%d' % d, S.forall(0, n, lambda k, d=d: [Q0A[d](k).eq(PQ0(k, d)), Q1A[d](k).eq(PQ1(k, d)), P0A[d](k).eq(A.pull('P0', k, d)), P1A[d](k).eq(A.pull('P1', k, d))])))
+            return out
+        S.ghost('loop1.before', lambda G: [G.assume_fact(q, 'naming ' + lab) for lab, q in naming()] and None)
+
+        def loop1_inv(L):
+            i = L.i
+            out = [('range', (i >= 0) & (i <= n) & L.n.eq(n)), ('shapes', LAM.R.eq(n + 1) & GT.R.eq(n) & GP.R.eq(ite(n > 1, n - 1, 0)))] + naming()
+            out.append(('times', S.forall(0, n, lambda k: [GT.at(k, 0).eq(gT.at(k, 0) + PHA(k) + ite(k < i, HTA(k), 0))])))
+            for d in DS:
+                out.append(('inner_%d' % d, S.forall(1, n, lambda r, d=d: [GP.at(r - 1, d).eq(P0A[d](r) + P1A[d](r - 1) + ite(r < i, Q0A[d](r), 0) + ite(r - 1 < i, Q1A[d](r - 1), 0))])))
+                out.append(('ends_%d' % d, SG.fields['p'].at(d, 0).eq(P0A[d](0) + ite(i > 0, Q0A[d](0), 0)) & EG.fields['p'].at(d, 0).eq(P1A[d](n - 1) + ite(i.eq(n), Q1A[d](n - 1), 0))))
+                out.append(('adjoint_system_%d' % d, S.forall(0, n + 1, lambda m, d=d: [e1(m, d, GMA[d](m))])))
+                out.append(('velocity_gradients_untouched_%d' % d, SG.fields['v'].at(d, 0).eq(0) & EG.fields['v'].at(d, 0).eq(0)))
+            return out
+
+        def loop1_names(L):
+            i = L.i
+            out = [(NB['t'], GT.at(i, 0))]
+            for d in DS:
+                out += [(NB['pm_%d' % d], ite(i.eq(0), SG.fields['p'].at(d, 0), GP.at(i - 1, d))), (NB['pn_%d' % d], ite((i + 1).eq(n), EG.fields['p'].at(d, 0), GP.at(i, d)))]
+            return out
+
+        def loop1_post(L):
+            i = L.i
+            out = [('t', GT.at(i, 0).eq(NB['t'] + esum([HT(i, d) for d in range(D)])))]
+            for d in DS:
+                out.append(('p0_%d' % d, ite(i.eq(0), SG.fields['p'].at(d, 0), GP.at(i - 1, d)).eq(NB['pm_%d' % d] + PQ0(i, d))))
+                out.append(('p1_%d' % d, ite((i + 1).eq(n), EG.fields['p'].at(d, 0), GP.at(i, d)).eq(NB['pn_%d' % d] + PQ1(i, d))))
+            return out
+        S.loop(1, inv=loop1_inv, variant=lambda L: n - L.i, terms=lambda L: [L.i, L.i - 1, L.i + 1],
+               local=dict(names=loop1_names, pre=loop0_pre, post=loop1_post, cases=CASES))
+
+        def unfold(G):
+            r = S.sk(0)
+            inr = (r >= 1) & (r < n)
+            for d in DS:
+                hyps = [implies(inr, GP.at(r - 1, d).eq(P0A[d](r) + P1A[d](r - 1) + ite(r < n, Q0A[d](r), 0) + ite(r - 1 < n, Q1A[d](r - 1), 0)))]
+                hyps += [implies(inr, Q0A[d](r).eq(PQ0(r, d)) & Q1A[d](r - 1).eq(PQ1(r - 1, d)) & P0A[d](r).eq(A.pull('P0', r, d)) & P1A[d](r - 1).eq(A.pull('P1', r - 1, d)))]
+                G.abstract_lemma('unfold_inner_%d' % d, hyps, [implies(inr, GP.at(r - 1, d).eq(A.pull('P0', r, d) + A.pull('P1', r - 1, d) + PQ0(r, d) + PQ1(r - 1, d)))])
+        S.ghost('exit', unfold)
